@@ -276,9 +276,13 @@ def _shards(lines, n):
     return sh_
 
 
+ABS_MARK = "@@W@@ABS@@"                      # inside hex-encoded fields: the scratch directory's absolute path without its leading slash
+ABS_HEX = ABS_MARK.encode().hex()            # 20 hex digits: does not occur in random data by accident (a 3-byte mark did: 1 case in 2 500)
+
+
 def subst_base(line, base):
-    """the shard's scratch directory for the placeholder @W@ - in plain fields and, as hex, inside hex-encoded fields (paths, link targets, requests)"""
-    return line.replace("@W@", base).replace("405740", base.encode().hex())
+    """the shard's scratch directory for the placeholders: @W@ in plain fields, ABS_MARK (as hex) inside hex-encoded fields (paths, link targets, requests)"""
+    return line.replace("@W@", base).replace(ABS_HEX, base.lstrip("/").encode().hex())
 
 
 def run_impl(exe, lines, workdir, timeout=900, sequential=False):
